@@ -40,7 +40,11 @@ LEVEL_TEXT = (
     "glue on stubbed streams, plus simnet sessions (real Server and Client) against MemoryPathIO, PathIO and AsyncPathIO with "
     "os.utime-controlled mtimes, MLSD, LIST, the 502 fallback and stat(), listings with a backend fault at one entry "
     "(C07_mlsd_complete_or_fails: a completed listing is complete, a fault fails the command) and listing commands with other "
-    "commands between the 150 mark and the data connection; zones with DST at function level around every transition."
+    "commands between the 150 mark and the data connection; directory cardinality x backend (127..1025 entries, thorough 4097, on "
+    "PathIO / AsyncPathIO over a directory in the system temp dir and on MemoryPathIO; truth read back with os.listdir/os.lstat); "
+    "connection histories (refused commands before login / on forbidden or missing paths / unknown commands, then list(), recursive "
+    "list() and stat() on the same connection must agree with each other and the backend; C07_list_plan_history_independent: the "
+    "command that reads a listing is a function of that call alone); zones with DST at function level around every transition."
 )
 LEVEL_NOTE = (
     "Trusted: Coq kernel; extraction cross-checked with vm_compute; harness. Modelled, not verified: glibc strftime (%b %e %H %M %Y "
